@@ -2,22 +2,39 @@
 import math
 from vcheck import Case, gnlist, gzlist
 import tgen
+from props.c01_conv import (OPS as CONV_OPS, gen_cases_conv, run_conv, check_conv, oracle_conv, TRIGGERS, WITNESSES)
 
 PROP = "C01"
 LEVEL = "proof"
 GEN_UNITS = []
-COQ_TARGETS = ["Props/C01.vo", "Model/Harness.vo"]
+COQ_TARGETS = ["Props/C01.vo", "Model/C01Harness.vo", "Model/Harness.vo"]
 THEOREM_FILES = ["Props/C01.v"]
 COQ_IMPORTS = ("From Coq Require Import List ZArith Bool.\n"
-               "From PV Require Import Base.Index Np.Array Model.Sparse Model.Repr Model.Harness.\n")
-RULE = ("all shapes with <= 8 cells (exhaustive) + seeded random shapes <= 5 modes / 96 cells; sparsity {0,1,some,all}; stored "
-        "orders {sorted,reversed,random}; non-trivial = more than one cell and at least one nonzero; distinct = distinct (op,args)")
-CORRESPONDENCE_ONLY = []
+               "From PV Require Import Base.Index Base.Perm Np.Array Model.Sparse Model.Repr Model.Harness Model.C07Ops Model.C07Harness "
+               "Model.C01Conv Model.C01Harness.\n")
+RULE = ("dense<->sparse: all shapes with <= 8 cells (exhaustive) + seeded random shapes <= 5 modes / 96 cells; sparsity {0,1,some,all}; stored "
+        "orders {sorted,reversed,random}; non-trivial = more than one cell and at least one nonzero; distinct = distinct (op,args); "
+        "matricisation: every ordered partition of the modes into (rdims, cdims) for N<=4 (either side may be empty) + seeded sample "
+        "for N=5, the rdims-only / cdims-only / fc / bc / t request forms, dense and sparse (sparsity {0,1,some,all}, stored orders "
+        "{sorted,reversed,random}); Kruskal ranks 0..3 on shapes <= 5 modes / 96 cells; Tucker cores <= 2x2x2x2 (dense and sparse "
+        "core); sums of 1..4 parts of mixed kinds; a malformed stream of non-partitions")
+CORRESPONDENCE_ONLY = [
+    "sptenmat.from_array (dense matrix / scipy coo input) against to_sptenmat of the denoted tensor",
+    "sptensor.spmatrix and sptenmat.double (scipy coo_matrix observed through .toarray())",
+    "tenmat.double, ktensor.double, ttensor.double, sumtensor.double (same arrays as full(), observed raw)",
+    "ktensor.to_tenmat (= full().to_tenmat)",
+    "tensor.ttm as used by ttensor.full: the theorem is about the mode-by-mode product defined on subscripts (Model/C01Conv.v "
+    "ttm_mode), tied to pyttb's permute/reshape/matmul implementation by correspondence only (C02 owns ttm)",
+    "stored order of sptenmat triples (the constructor sorts them with np.unique; the model keeps the source order and the "
+    "comparison is on shape, denotation, well-formedness and nnz)",
+]
+ASSUMPTIONS = ["numpy transpose / F-order reshape / scatter / nonzero semantics as defined in Np/Array.v and Model/Sparse.v",
+               "sptenmat constructor on well-formed input only reorders the triples (np.unique + accumarray with no duplicates)"]
 
 
 def gen_cases(rng, tier):
     big = tier == "thorough"
-    cases = []
+    cases = gen_cases_conv(rng, tier)
     shapes = tgen.shapes_upto(8) + [tuple(tgen.rand_shape(rng, maxn=5, maxcells=96)) for _ in range(120 if big else 25)]
     for shp in shapes:
         n = math.prod(shp)
@@ -39,6 +56,8 @@ def gen_cases(rng, tier):
 
 
 def run_impl(c):
+    if c.op in CONV_OPS:
+        return run_conv(c)
     import numpy as np
     import pyttb as ttb
     a = c.args
@@ -61,6 +80,8 @@ def run_impl(c):
 
 
 def coq_check(c, o):
+    if c.op in CONV_OPS:
+        return check_conv(c, o)
     a = c.args
     if "exc" in o:
         return "false"          # every request generated here is admissible
@@ -83,6 +104,8 @@ def coq_check(c, o):
 
 def oracle(c, o):
     """brute-force: does pyttb's output denote the same array? (pure Python loops)"""
+    if c.op in CONV_OPS:
+        return oracle_conv(c, o)
     a = c.args
     if "exc" in o:
         return f"admissible conversion raised {o['exc']}: {o.get('msg')}"
